@@ -21,3 +21,26 @@ package server
 //@   requires log != nil
 //@   ensures  spec: result == TriggerSpec(rules, req.GetAttributes().GetRequest().GetHttp().GetPath())
 //@   loop 1 invariant norule: forall j int :: 0 <= j && j <= rangeindex ==> !RuleSpec(rules[j], PathOnly(req.GetAttributes().GetRequest().GetHttp().GetPath()))
+
+//@ func matches
+//@   ensures  spec: result == ChainMatches(m, req)
+
+//@ func (*ExtAuthZFilter).Check
+//@   requires wf: e != nil && e.log != nil && e.cfg != nil && ChainsResolved(e.cfg)
+//@   requires allow_global: deref(allow) != nil && deref(allow).Status != nil && deref(allow).Status.Code == 0
+//@   modifies everything
+//@   ensures  err_no_verdict: err != nil ==> response == nil
+//@   ensures  untriggered: !TriggerSpec(e.cfg.TriggerRules, req.GetAttributes().GetRequest().GetHttp().GetPath()) ==> err == nil && response == old(deref(allow)) && NProc == old(NProc)
+//@   ensures  unmatched: err == nil && TriggerSpec(e.cfg.TriggerRules, req.GetAttributes().GetRequest().GetHttp().GetPath()) && (forall j int :: 0 <= j && j < len(old(e.cfg.Chains)) ==> !ChainMatches(old(e.cfg.Chains)[j].Match, req)) ==> NProc == old(NProc) && (old(e.cfg.AllowUnmatchedRequests) ==> response == old(deref(allow))) && (!old(e.cfg.AllowUnmatchedRequests) ==> response != nil && fresh(response) && RespCode(response) == 7 && response.HttpResponse == nil)
+//@   ensures  judged: TriggerSpec(e.cfg.TriggerRules, req.GetAttributes().GetRequest().GetHttp().GetPath()) ==> forall c int :: 0 <= c && c < len(old(e.cfg.Chains)) && ChainMatches(old(e.cfg.Chains)[c].Match, req) && (forall j int :: 0 <= j && j < c ==> !ChainMatches(old(e.cfg.Chains)[j].Match, req)) ==> RanPrefix(old(e.cfg.Chains[c].Filters), NProc - old(NProc), old(NProc), ProcLog, ProcCode) && (err == nil && len(old(e.cfg.Chains[c].Filters)) == 0 ==> response == old(deref(allow))) && (err == nil && len(old(e.cfg.Chains[c].Filters)) > 0 ==> response != nil && ChainVerdict(old(e.cfg.Chains[c].Filters), NProc - old(NProc), old(NProc), ProcCode, RespCode(response)))
+//@   loop 1 invariant nomatch: forall j int :: 0 <= j && j <= rangeindex ==> !ChainMatches(old(e.cfg.Chains)[j].Match, req)
+//@   loop 1 invariant quiet: NProc == old(NProc) && log != nil
+//@   loop 2 invariant count: NProc == old(NProc) + rangeindex + 1 && log != nil
+//@   loop 2 invariant logged: forall i int :: old(NProc) <= i && i < NProc ==> ProcLog[i] == FilterCfg(old(e.cfg.Chains[rangeindex1 + 1].Filters)[i - old(NProc)])
+//@   loop 2 invariant resp: resp != nil && fresh(resp) && (rangeindex >= 0 ==> resp.Status != nil && RespCode(resp) == 0)
+//@   loop 2 invariant allowed: forall i int :: old(NProc) <= i && i < NProc ==> ProcCode[i] == 0
+//@   loop 2 invariant chain: 0 <= rangeindex1 + 1 && rangeindex1 + 1 < len(old(e.cfg.Chains)) && ChainMatches(old(e.cfg.Chains)[rangeindex1 + 1].Match, req) && (forall j int :: 0 <= j && j <= rangeindex1 ==> !ChainMatches(old(e.cfg.Chains)[j].Match, req))
+
+// the package-level function value deny (a function literal stored by the package initialiser)
+//@ func deny
+//@   ensures  denied: result != nil && fresh(result) && result.Status != nil && result.Status.Code == code && result.Status.Message == message && result.HttpResponse == nil
